@@ -16,12 +16,20 @@ def kernels():
     return [gokernel.Kernel('C17', 'compiler/internal/analysis', ['escape_harness.go'], init=[G + 'compiler/internal/analysis'] + STD),
             gokernel.Kernel('C17', 'compiler/internal/dce', ['order_harness_dce.go'], init=[G + 'compiler/internal/dce'] + STD),
             gokernel.Kernel('C17', 'compiler/sources', ['order_harness_sources.go'], init=[G + 'compiler/sources'] + STD),
-            gokernel.Kernel('C17', 'compiler/internal/typeparams', ['order_harness_instances.go'], init=[G + 'compiler/internal/typeparams', 'golang.org/x/tools/go/types/typeutil'] + STD)]
+            gokernel.Kernel('C17', 'compiler/internal/typeparams', ['order_harness_instances.go', 'order_harness_collector.go'], init=[G + 'compiler/internal/typeparams', 'golang.org/x/tools/go/types/typeutil'] + STD)]
 
 
 OBS_MAIN = '''package main
 
-import "verifprog/sub"
+import (
+	"verifprog/gsub"
+	"verifprog/gsub2"
+	"verifprog/sub"
+)
+
+var first = initFirst()
+
+func initFirst() int { return second + 1 }
 
 type T struct{ a, b int }
 
@@ -53,10 +61,12 @@ func main() {
 	var i I = T{1, 2}
 	m := map[string]int{"a": 1}
 	n := map[int]string{1: "x"}
-	println(total, i.M(), gen(m), gen(n), sub.F(3), sub.G[int8](4), sub.G[string]("s"))
+	println(total, i.M(), gen(m), gen(n), sub.F(3), sub.G[int8](4), sub.G[string]("s"), gsub.A(1), gsub2.D("s"), first, T{}.Extra())
 }
 '''
-OBS_OTHER = 'package main\n\nvar second = initSecond()\n\nfunc initSecond() int { return 2 }\n\nfunc init() { println("other", second) }\n'
+OBS_GEN = {'other/o.go': 'package other\n\nfunc B[T any](v T) T { return v }\n', 'gsub/s.go': 'package gsub\n\nimport "verifprog/other"\n\nfunc A[T any](v T) T { return other.B(v) }\n',
+           'gsub2/s.go': 'package gsub2\n\nimport "verifprog/other"\n\nfunc D[T any](v T) T { return other.B(v) }\n'}
+OBS_OTHER = 'package main\n\nvar second = initSecond()\n\nfunc initSecond() int { return 2 }\n\nfunc init() { println("other", second) }\n\nfunc (t T) Extra() int { return t.a + third }\n\nvar third = first * 2\n'
 OBS_SUB = 'package sub\n\nvar cache = map[string]int{}\n\nfunc F(x int) int { a, b := x, x+1; f := func() int { return a + b }; g := func() *int { return &b }; return f() + *g() }\n\nfunc G[T any](v T) T { return v }\n'
 
 
@@ -66,8 +76,10 @@ def reproducibility_observations(tier):
     import hashlib
     out = {'builds': 0, 'distinct_outputs': {}, 'failures': []}
     d = os.path.join(core.scratch(), 'C17obs')
-    core.write_pkg(d, {'main.go': OBS_MAIN, 'other.go': OBS_OTHER, 'sub/sub.go': OBS_SUB})
-    n = 6 if tier == 'quick' else 20
+    files = {'main.go': OBS_MAIN, 'other.go': OBS_OTHER, 'sub/sub.go': OBS_SUB}
+    files.update(OBS_GEN)
+    core.write_pkg(d, files)
+    n = 8 if tier == 'quick' else 24
     for minify in (False, True):
         seen = {}
         for k in range(n):
